@@ -145,13 +145,51 @@ var onDemandAxioms = map[string]string{
 (assert (forall ((A (Array Int Int)) (o Int) (n Int) (i Int)) (! (=> (and (<= 0 i) (< i n)) (= (at (ofArr A o n) i) (select A (+ o i)))) :pattern ((at (ofArr A o n) i)))))`,
 }
 
+// relaxed: the theory's declarations without its axioms, and only the quantifier-free facts. Such a query is a
+// candidate generator only: a model of it need not be a real counterexample, so it is used solely for safety
+// obligations, where running the real code on the candidate input decides (it panics or it does not).
+func buildQueryRelaxed(o *Obligation) string {
+	r := *o
+	r.Facts = nil
+	for _, f := range o.Facts {
+		if fs := f.String(); !strings.Contains(fs, "forall") && !strings.Contains(fs, "exists") {
+			r.Facts = append(r.Facts, f)
+		}
+	}
+	r.relaxed = true
+	return buildQuery(&r, nil)
+}
+
+func declsOnly(text string) string {
+	var sb strings.Builder
+	var clean strings.Builder
+	for _, l := range strings.Split(text, "\n") {
+		if i := strings.Index(l, ";"); i >= 0 {
+			l = l[:i]
+		}
+		clean.WriteString(l + "\n")
+	}
+	for _, e := range parseSexprs(clean.String()) {
+		if len(e.kids) > 0 && (e.kids[0].atom == "assert" || e.kids[0].atom == "check-sat") {
+			continue
+		}
+		sb.WriteString(e.String())
+		sb.WriteString("\n")
+	}
+	return sb.String()
+}
+
 func buildQuery(o *Obligation, extra []string) string {
 	th := theories[o.Theory]
 	if th == nil {
 		th = theories["T0"]
 	}
 	var sb strings.Builder
-	sb.WriteString(th.Text)
+	if o.relaxed {
+		sb.WriteString(declsOnly(th.Text))
+	} else {
+		sb.WriteString(th.Text)
+	}
 	sb.WriteString("\n")
 	consts := map[string]*Sort{}
 	funs := map[string]sig{}
@@ -168,7 +206,7 @@ func buildQuery(o *Obligation, extra []string) string {
 			as = append(as, a.String())
 		}
 		fmt.Fprintf(&sb, "(declare-fun %s (%s) %s)\n", smtSym(n), strings.Join(as, " "), f.Ret)
-		if ax, ok := onDemandAxioms[n]; ok && o.Theory != "none" {
+		if ax, ok := onDemandAxioms[n]; ok && o.Theory != "none" && !o.relaxed {
 			sb.WriteString(ax + "\n")
 		}
 	}
@@ -182,6 +220,9 @@ func buildQuery(o *Obligation, extra []string) string {
 		sb.WriteString(e + "\n")
 	}
 	for _, f := range unfolded {
+		if o.relaxed {
+			break
+		}
 		sb.WriteString("(assert ")
 		f.write(&sb)
 		sb.WriteString(")\n")
